@@ -4,7 +4,7 @@ From BBF Require Import Base.Prelude Base.Names Base.Bits Spec.Sem
      Proofs.ExprProofs Proofs.TableProofs Proofs.QuantProofs Proofs.NfProofs Proofs.DdProofs Proofs.BddProofs Proofs.BddOps
      Proofs.ConvProofs Proofs.RenderProofs Proofs.EnumProofs Proofs.CountProofs Proofs.EnumAgree.
 From BBF Require Import Model.Lexer Model.Parser Model.Display Model.Render Model.Csv Model.Prog Proofs.ProgProofs Proofs.ConvChain Proofs.ObsProofs.
-From BBF Require Import Model.Iter Proofs.IterProofs Model.Extra Proofs.ExtraProofs.
+From BBF Require Import Model.Iter Proofs.IterProofs Model.Extra Proofs.ExtraProofs Proofs.IterSem.
 Theorem C10_domain_size : forall n, length (points n) = 2 ^ n.
 Proof. exact points_length. Qed.
 Print Assumptions C10_domain_size.
@@ -155,6 +155,25 @@ Theorem C10_point_to_valuation : forall vars p,
   (length p <> length vars -> point_valuation vars p = None).
 Proof. exact point_valuation_spec. Qed.
 Print Assumptions C10_point_to_valuation.
+
+(* end to end, for a well-formed object with declared inputs ins (n of them): the i-th call of next() on fresh
+   image / relation / domain iterators returns the function's value at the point whose binary value is i (with that
+   point), for i < 2^n, and None from call 2^n on *)
+Theorem C10_iter_means : forall o, owf o ->
+  let ins := decl o in let n := length ins in
+  forall k i, i < k -> i < 2 ^ n ->
+    nth_error (obj_img_steps o k) i = Some (Some (osem o (env_of ins (index_point (N.of_nat i) n)))) /\
+    nth_error (obj_rel_steps o k) i = Some (Some (index_point (N.of_nat i) n, osem o (env_of ins (index_point (N.of_nat i) n)))) /\
+    nth_error (obj_dom_steps o k) i = Some (Some (index_point (N.of_nat i) n)).
+Proof. exact iter_image_value. Qed.
+Print Assumptions C10_iter_means.
+
+Theorem C10_iter_ends : forall o, owf o ->
+  let n := length (decl o) in
+  forall k i, i < k -> 2 ^ n <= i ->
+    nth_error (obj_img_steps o k) i = Some None /\ nth_error (obj_rel_steps o k) i = Some None /\ nth_error (obj_dom_steps o k) i = Some None.
+Proof. exact iter_exhausted. Qed.
+Print Assumptions C10_iter_ends.
 
 Example C10_iter_example :
   steps e_sup_next 3 (e_it_new (Or [Lit [97%N]; Lit [98%N]])) = [Some [false; true]; Some [true; false]; Some [true; true]]
